@@ -331,6 +331,14 @@ class GroupBase:
             if all(item == [default] for item in idx_cross_mdls):
                 out_pre.append([default])
                 continue
+            if allow_all:
+                # collect the matches from all models of this group
+                merged = []
+                for item in idx_cross_mdls:
+                    if item != [default]:
+                        merged.extend(item)
+                out_pre.append(merged)
+                continue
             for item in idx_cross_mdls:
                 if item != [default]:
                     out_pre.append(item)
